@@ -330,3 +330,32 @@ func SnakeName(goName string) string {
 	// generated suffix names: Name + "V" + digits (v2 fields of C20): NameV2 → name_v2
 	panic("schemagen: no column name known for field " + goName)
 }
+
+// nameIsColumn: the leaf's Go name is also the column name of another leaf, so
+// a map key spelled like it means that column (column names win in gorm's lookup).
+func (m *Model) nameIsColumn(l *Leaf) bool {
+	for _, x := range m.Leaves {
+		if x != l && x.DBName == l.Spec.Name {
+			return true
+		}
+	}
+	return false
+}
+
+// HasCrossName reports whether a column is spelled like the Go name of another field
+// (exact = case-sensitively equal).
+func (m *Model) HasCrossName() (exact, caseOnly bool) {
+	for _, a := range m.Leaves {
+		for _, b := range m.Leaves {
+			if a == b || a.Spec == b.Spec {
+				continue
+			}
+			if a.DBName == b.Spec.Name {
+				exact = true
+			} else if strings.EqualFold(a.DBName, b.Spec.Name) {
+				caseOnly = true
+			}
+		}
+	}
+	return
+}
